@@ -132,6 +132,15 @@ class UpperLit:
     __hash__ = object.__hash__
 
 
+class ConcUpper(str):
+    """str.upper(value) of token idx when the (upper-cased) text is fixed by the document shape"""
+
+    def __new__(cls, text, idx):
+        o = super().__new__(cls, text)
+        o.idx = idx
+        return o
+
+
 class TokSink:
     """the `tokens` list of an abstract AST node: appended to, never read"""
 
@@ -173,12 +182,18 @@ def _m_next(eng, args, kwargs):
             raise Unsupported("next(lexer, default) with a default other than None on the abstract token stream")
         eng.assumptions.add(A_STREAM)
         eng.assumptions.add(A_DEPTH)
-        if eng.branch(fresh("bool", "lexer_error")):
+        if not (_state(eng) or {}).get("no_lexer_error") and eng.branch(fresh("bool", "lexer_error")):
             raise ProgExc(ValueError, "lexer error (float(word) of a malformed number)")
         c = to_z3(it.fields["g_cur"], "int")
         eng.assume(depth_step(c))  # definitional instance for the token being consumed
         c1 = z3.simplify(c + 1)
         it.fields["g_cur"] = Sym(c1, "int")
+        conc = (_state(eng) or {}).get("concrete")  # fixed-shape streams: token types / length are concrete, values symbolic
+        if conc is not None and z3.is_int_value(c1):
+            k = c1.as_long()
+            if len(args) == 1 and not 0 <= k < len(conc):
+                raise ProgExc(StopIteration, "end of the token stream")
+            return Sym(z3.IntVal(k + 1 if 0 <= k < len(conc) else 0), "oref")
         if len(args) == 1 and not eng.branch(_sb(z3.And(c1 >= 0, c1 < NTOK))):
             raise ProgExc(StopIteration, "end of the token stream")  # next() without a default
         return Sym(z3.simplify(tokref(c1)), "oref")
@@ -198,7 +213,10 @@ def _scalar_attr(eng, v, name):
             if not eng.spec_mode and not eng.branch(_sb(v.z != 0)):
                 raise ProgExc(AttributeError, f"'NoneType' object has no attribute '{name}'")
             idx = z3.simplify(v.z - 1)
+            conc = st.get("concrete")
             if name == "type":
+                if conc is not None and z3.is_int_value(idx):
+                    return _mod().TokenType[conc[idx.as_long()][0]]
                 return SymEnum(TTYPE(idx), _mod().TokenType)
             if name == "value":
                 return TokVal(idx)
@@ -243,6 +261,8 @@ def _alloc(eng, kindv, value):
         for f, x in zip(HEAP_REAL, value):
             xz = x.real() if isinstance(x, TokVal) else to_z3(x, "real")
             h[f].arr = z3.Store(h[f].arr, nid, xz)
+    elif isinstance(value, ConcUpper):
+        h["label"].arr = z3.Store(h["label"].arr, nid, TUP(value.idx))
     elif isinstance(value, UpperLit):
         h["label"].arr = z3.Store(h["label"].arr, nid, TUP(value.idx))
     elif isinstance(value, str):
@@ -301,6 +321,13 @@ def _m_upper(eng, args, kwargs):
     (v,) = args
     if isinstance(v, TokVal):
         eng.assumptions.add(A_UPPER)
+        conc = (_state(eng) or {}).get("concrete")
+        if conc is not None and z3.is_int_value(v.idx):
+            t, lit = conc[v.idx.as_long()]
+            if t == "FLOAT":
+                raise ProgExc(TypeError, "str.upper of a float")
+            if lit is not None:
+                return ConcUpper(lit, v.idx)
         if eng.branch(_sb(TTYPE(v.idx) == tt("FLOAT"))):
             raise ProgExc(TypeError, "str.upper of a float")
         return UpperLit(v.idx)
